@@ -168,6 +168,37 @@ Section Indep.
   Proof. unfold ack_map, oracle_ack_map. apply (ack_fold_oracle pre (unit_new C)). apply coherent_new. Qed.
 End Indep.
 
+(** GetBulkFromEpoch when no read of the bulk can fail (the case in which label 8 is printed for a warm bulk): all the found pairs, in
+    request order, whatever the cacher -- warm or after ClearCache *)
+Section Bulk.
+  Variable C : cacher_ops.
+  Variable L : cacher_laws C.
+
+  Lemma observe_bulk_any s ks ep o cold : coherent C L s -> no_fail_prefix (length ks) o ->
+    observe cold (OBulk ks ep o) (snd (unit_step C s (OBulk ks ep o))) (u_pers s) = [(8, g_pairs (found_pairs (u_pers s) ks))].
+  Proof.
+    intros Hco Hnf. destruct (unit_step C s (OBulk ks ep o)) as (s', out) eqn:E. cbn [snd].
+    destruct (step_spec C L s _ s' out Hco E) as (_ & _ & Hok). cbn [out_ok] in Hok.
+    destruct Hok as (l & -> & _ & Hall & _). rewrite (Hall Hnf). cbn [observe].
+    unfold no_fail_prefix in Hnf. rewrite Hnf. rewrite Nat.ltb_irrefl. reflexivity.
+  Qed.
+
+  Theorem observe_bulk pre ks ep o : no_fail_prefix (length ks) o ->
+    (let s := unit_final C (unit_new C) pre in
+     observe false (OBulk ks ep o) (snd (unit_step C s (OBulk ks ep o))) (u_pers s) = [(8, g_pairs (found_pairs (oracle_ack_map pre) ks))]) /\
+    (let s := unit_clear_cache C (unit_final C (unit_new C) pre) in
+     observe true (OBulk ks ep o) (snd (unit_step C s (OBulk ks ep o))) (u_pers s) = [(8, g_pairs (found_pairs (oracle_ack_map pre) ks))]).
+  Proof.
+    intros Hnf. split; cbv zeta.
+    - rewrite observe_bulk_any; [|apply final_coherent; apply coherent_new|exact Hnf].
+      rewrite (pers_is_ack C L pre), (ack_map_oracle C L). reflexivity.
+    - assert (E : unit_clear_cache C (unit_final C (unit_new C) pre) = unit_final C (unit_new C) (pre ++ [OClearCache]))
+        by (rewrite final_app; reflexivity).
+      rewrite observe_bulk_any; [|rewrite E; apply final_coherent; apply coherent_new|exact Hnf].
+      simpl u_pers. rewrite (pers_is_ack C L pre), (ack_map_oracle C L). reflexivity.
+  Qed.
+End Bulk.
+
 (** THE STATEMENT: two lawful cachers print the same *)
 Theorem observables_do_not_depend_on_the_cacher (C1 C2 : cacher_ops) (L1 : cacher_laws C1) (L2 : cacher_laws C2) pre d :
   is_bulk d = false ->
